@@ -82,6 +82,22 @@ type result struct {
 	Ops   []opRes
 	Fires []fire
 	End   time.Time
+	Hung  string // a gate call that did not return within the guard time
+}
+
+// guardTime bounds a single gate call (they take microseconds): a call that does not come
+// back - a mutex left locked on an error path, say - must become a verdict, not a hung shard.
+const guardTime = 10 * time.Second
+
+func guarded(f func()) bool {
+	done := make(chan struct{})
+	go func() { f(); close(done) }()
+	select {
+	case <-done:
+		return true
+	case <-time.After(guardTime):
+		return false
+	}
 }
 
 func copyState(st ogm.OpenGameState) map[string]ogm.OpenGameParticipant {
@@ -125,7 +141,11 @@ func execute(sc scenario) result {
 		r := opRes{Op: o, T0: time.Now()}
 		switch o.Kind {
 		case "setup":
-			m.Setup(o.GC, o.Parts)
+			if mm := m; !guarded(func() { mm.Setup(o.GC, o.Parts) }) {
+				res.Hung = o.String() + " did not return"
+				res.End = time.Now()
+				return res
+			}
 			curGC, curN, signalled = o.GC, len(o.Parts), map[string]bool{}
 			mu.Lock()
 			firesBefore = 0
@@ -136,9 +156,17 @@ func execute(sc scenario) result {
 			}
 			mu.Unlock()
 		case "ready":
-			before := stateString(m.GetState())
-			r.Err = m.Ready(o.ID)
-			r.StateEqual = before == stateString(m.GetState())
+			var before, after string
+			if mm := m; !guarded(func() {
+				before = stateString(mm.GetState())
+				r.Err = mm.Ready(o.ID)
+				after = stateString(mm.GetState())
+			}) {
+				res.Hung = o.String() + " (or the GetState around it) did not return"
+				res.End = time.Now()
+				return res
+			}
+			r.StateEqual = before == after
 			if r.Err == nil {
 				signalled[o.ID] = true
 			}
@@ -200,6 +228,13 @@ type verdict struct{ sig, msg string }
 
 // judge applies the C09 obligations to a finished scenario.
 func judge(sc scenario, res result, labels map[string]bool) *verdict {
+	if res.Hung != "" {
+		done := []string{}
+		for _, r := range res.Ops {
+			done = append(done, r.Op.String())
+		}
+		return &verdict{"C09.call-never-returned", fmt.Sprintf("%s within %v; operations before it: %s", res.Hung, guardTime, strings.Join(done, " "))}
+	}
 	timeout := time.Duration(sc.Timeout) * time.Second
 	margin := 1500 * time.Millisecond
 	var otherTOFrom time.Time // a rebuild from a state that carries another timeout than the configuration
